@@ -127,6 +127,70 @@ def execute(p, target, assignment, mode, seed=0):
     return obs
 
 
+def execute_seq(p, steps):
+    """a short history on ONE client vector object: steps = [("cwrite", el, v) | ("dassign", el, v)];
+    returns the final driver values of the target vector, the client view, and pending flags"""
+    from mc.core import e2e
+    from mc.props.client_common import elval
+
+    specs = DP.deployment(**p)
+    w = e2e.World(specs)
+    try:
+        c = w.make_client()
+        cvec = c["DEV0"]["TGT"]
+        dvec = DM.live_vector(w.devices[0], specs[0]["groups"][0], specs[0]["groups"][0]["vectors"][0])
+        before_other = snapshot(w)
+        for op, el, v in steps:
+            if op == "cwrite":
+                cvec[el].value = v
+                cvec.submit()
+            else:
+                getattr(dvec, el.lower()).value = v
+            w.settle()
+        after = snapshot(w)
+        return dict(values=after[0]["TGT"], others_same=all(a[vn] == b[vn] for a, b in zip(after, before_other) for vn in a if not (a is after[0] and vn == "TGT")), view={en: elval(cvec[en]) for en in cvec.list_elements()}, errors=[e.get("message") for e in w.loop.collect_errors()])
+    finally:
+        w.close()
+
+
+def seq_cases(variant):
+    kind = variant.split("-")[0]
+    if kind == "text":
+        return [[("cwrite", "A", "one"), ("dassign", "A", "two"), ("cwrite", "B", "three")], [("cwrite", "B", "b1"), ("cwrite", "A", "a1"), ("dassign", "B", "b2"), ("cwrite", "A", "a2")]], {"A": ["two", "a2"], "B": ["three", "b2"]}
+    if kind == "number":
+        return [[("cwrite", "A", "7"), ("dassign", "A", 9.0), ("cwrite", "B", "3")], [("cwrite", "B", "1.5"), ("cwrite", "A", "2.5"), ("dassign", "B", 4.0), ("cwrite", "A", "5")]], {"A": [9.0, 5.0], "B": [3.0, 4.0]}
+    if variant == "switch-AnyOfMany":
+        return [[("cwrite", "B", "On"), ("dassign", "B", "Off"), ("cwrite", "C", "On")]], {"A": ["On"], "B": ["Off"], "C": ["On"]}
+    if variant in ("switch-OneOfMany", "switch-AtMostOne"):
+        # selecting B, then C: re-sending the earlier B=On after C=On would select B again
+        return [[("cwrite", "C", "On"), ("cwrite", "B", "On")], [("cwrite", "B", "On"), ("cwrite", "C", "On")]], None
+    return [], None
+
+
+def judge_seq(p0, si):
+    variant = p0["variant"]
+    seqs, want = seq_cases(variant)
+    steps = seqs[si]
+    o = execute_seq(p0, steps)
+    f = []
+    d = "kind=%s,history" % variant
+    if want is not None:
+        for en, vals in want.items():
+            got = o["values"][en]
+            w_ = vals[si]
+            ok = (abs(got - w_) <= 1e-9) if isinstance(w_, float) else got == w_
+            if not ok:
+                f.append(("later-write-disturbed-earlier-element", d, "history %r: %s = %r, expected %r" % (steps, en, got, w_)))
+    else:
+        last = steps[-1][1]
+        on = [en for en, v in o["values"].items() if v == "On"]
+        if on != [last]:
+            f.append(("later-write-disturbed-earlier-element", d, "history %r: switches On %r, expected [%r]" % (steps, on, last)))
+    if not o["others_same"]:
+        f.append(("other-property-changed", d, "history %r changed another property" % (steps,)))
+    return f
+
+
 def judge(p, target, assignment, obs):
     fails = []
     specs = DP.deployment(**p)
@@ -189,7 +253,7 @@ def judge(p, target, assignment, obs):
 
 
 def short(assignment):
-    return [(n, v if not isinstance(v, tuple) else v) for n, v in assignment]
+    return [tuple(x) for x in assignment]
 
 
 def cases(tier, variant, ndev, depth):
@@ -262,6 +326,13 @@ def run_shard(shard):
                     record(p, target, assignment, ("cut", k), judge(p, target, assignment, obs))
         n += 1
         res["counters"]["writes"] = res["counters"].get("writes", 0) + 1
+    # short histories through ONE client vector object: a later submit must not re-send earlier elements
+    p0 = dict(variant=variant, vec_enabled=True, grp_enabled=True, depth=depth, ndev=ndev, ngroups=2)
+    seqs, want = seq_cases(variant)
+    for si, steps in enumerate(seqs):
+        res["executions"] += 1
+        res["transitions"] += len(steps)
+        record(p0, (0, "TGT"), steps, ("history", si), judge_seq(p0, si))
     res["states"] = res["executions"]
     res["violations"] = list(sig.values())
     if variant == "text" and ndev == 2:
@@ -291,6 +362,8 @@ def _t(x):
 
 def replay(rep):
     p = rep["p"]
+    if isinstance(rep.get("mode"), list) and rep["mode"][0] == "history":
+        return [{"clause": c, "disc": d, "what": w} for c, d, w in judge_seq(p, rep["mode"][1])]
     assignment = [(n, _t(v) if isinstance(v, list) else v) for n, v in rep["assignment"]]
     mode = _t(rep["mode"]) if isinstance(rep["mode"], list) else rep["mode"]
     target = _t(rep["target"])
